@@ -41,6 +41,7 @@ public:
         p.cfg["maxtracks"] = r.chance(0.5) ? (int64_t)r.range(1, 3) : (int64_t)r.range(4, 8);
         p.cfg["maxev"] = thorough ? (int64_t)r.range(5, 60) : (int64_t)r.range(5, 35);
         p.cfg["tempo"] = (int64_t)r.below(2);
+        p.cfg["devices"] = (int64_t)r.chance(0.3);   // tracks bound to MIDI devices/ports (meta FF 09): channel events go to channel + 16 x device
         int mode = r.chance(0.7) ? 0 : 1;
         p.cfg["mode"] = mode;
         p.cfg["mult"] = r.chance(0.5) ? 2 : (int64_t)r.below(5);    // index into {0.25,0.5,1,2,4}
@@ -69,6 +70,18 @@ public:
         SongOpts o; o.maxTracks = (int)p.get("maxtracks", 3); o.maxEventsPerTrack = (int)p.get("maxev", 30); o.tempoChanges = p.get("tempo", 1) != 0;
         o.maxSeconds = 8.0; o.eotVariants = false;
         Song s = genSong(r, o);
+        if(p.get("devices", 0))
+        {
+            // every track names its own device at its start (names are pairwise distinct, so the meta events keep unique tags);
+            // some switch to a second one halfway
+            for(size_t tk = 0; tk < s.tracks.size(); ++tk)
+            {
+                STrack &t = s.tracks[tk]; if(t.ev.empty() || !r.chance(0.8)) continue;
+                SEvent e; e.status = 0xFF; e.metaType = 0x09; e.tick = 0; char nm[24]; snprintf(nm, sizeof nm, "dev%zu", tk); e.data.assign(nm, nm + strlen(nm)); e.id = 100000 + (int)tk * 2;
+                t.ev.insert(t.ev.begin(), e);
+                if(t.ev.size() > 6 && r.chance(0.4)) { size_t at = t.ev.size() / 2; SEvent f = e; f.tick = t.ev[at].tick; snprintf(nm, sizeof nm, "dev%zub", tk); f.data.assign(nm, nm + strlen(nm)); f.id = e.id + 1; t.ev.insert(t.ev.begin() + (long)at, f); }
+            }
+        }
         // well-formed End-of-Track variants only: with company (delta 0) or alone at its own tick
         for(size_t tk = 0; tk < s.tracks.size(); ++tk)
         {
@@ -191,8 +204,11 @@ public:
             c.fAfter = F; c.framesAfter = frames;
             calls.push_back(c);
             // disabled channels carry no notes
-            for(int ch = 0; ch < 16; ++ch) if(!chanOn[(size_t)ch] && !pl->m_midiChannels[(size_t)ch].activenotes.empty())
-            { run.fail("disabled-channel-note", "mask", "MIDI channel " + std::to_string(ch) + " is disabled but holds an active note"); return false; }
+            // (a drum hit that was sounding when its channel was switched off may ring out its 30 ms minimum life: it is already released)
+            for(int ch = 0; ch < 16; ++ch) if(!chanOn[(size_t)ch])
+                for(OPNMIDIplay::MIDIchannel::notes_iterator ni = pl->m_midiChannels[(size_t)ch].activenotes.begin(); !ni.is_end(); ++ni)
+                    if(!ni->value.isOnExtendedLifeTime)
+                    { run.fail("disabled-channel-note", "mask", "MIDI channel " + std::to_string(ch) + " is disabled but holds an active note (key " + std::to_string(ni->value.note) + ")"); return false; }
             policyMask |= 1ull << policy;
             return true;
         };
@@ -320,6 +336,40 @@ public:
                         // note-offs of already sounding notes before note-ons
                         if(a.kind == 0x8 && a.soundingOff && b.kind == 0x9 && pa > pb) run.fail("same-tick-noteoff-after-noteon", "off-first", "track " + std::to_string(tk) + " tick " + std::to_string(a.tick));
                         if(a.kind == 0x9 && b.kind == 0x8 && b.soundingOff && pb > pa) run.fail("same-tick-noteoff-after-noteon", "on-first-in-file", "track " + std::to_string(tk) + " tick " + std::to_string(a.tick) + ": note-off #" + std::to_string(j) + " of a sounding note delivered after note-on #" + std::to_string(i));
+                    }
+                }
+            }
+            // ---- where the events went: with every track and channel enabled, the controller state of every (device, channel) at the
+            // end of the song is the one the delivered events of the tracks bound to that device produce (channel + 16 x device)
+            if(!run.failed() && !maskChangedDuringPlay && !anySolo)
+            {
+                bool allOn = true; for(size_t t = 0; t < nTracks; ++t) if(!trackOn[t]) allOn = false; for(int c = 0; c < 16; ++c) if(!chanOn[(size_t)c]) allOn = false;
+                if(allOn)
+                {
+                    std::vector<std::pair<int, std::pair<size_t, size_t> > > order;
+                    for(size_t tk = 0; tk < nTracks; ++tk) for(size_t i = 0; i < ref.tracks[tk].size(); ++i) if(deliveredPos[tk][i] >= 0) order.push_back(std::make_pair(deliveredPos[tk][i], std::make_pair(tk, i)));
+                    std::sort(order.begin(), order.end());
+                    struct ChState { int volume, expression, panning, patch, bend; };
+                    std::map<std::string, size_t> devIndex; std::vector<size_t> curDev(nTracks, 0); std::map<size_t, ChState> st;
+                    auto stateOf = [&](size_t midCh) -> ChState & { std::map<size_t, ChState>::iterator it = st.find(midCh); if(it == st.end()) { ChState d; d.volume = 100; d.expression = 127; d.panning = 64; d.patch = 0; d.bend = 0; it = st.insert(std::make_pair(midCh, d)).first; } return it->second; };
+                    for(size_t q = 0; q < order.size(); ++q)
+                    {
+                        size_t tk = order[q].second.first; const ExpEvent &x = ref.tracks[tk][order[q].second.second]; const SEvent *se = NULL;
+                        if(x.kind == 0xFF && x.metaType == 0x09 && !x.isEOT) { se = &song.tracks[tk].ev[(size_t)x.indexInTrack]; std::string nm(se->data.begin(), se->data.end()); if(!devIndex.count(nm)) { size_t n = devIndex.size(); devIndex[nm] = n; } curDev[tk] = devIndex[nm]; continue; }
+                        size_t midCh = curDev[tk] * 16 + x.ch;
+                        if(x.kind == 0xB) { ChState &c = stateOf(midCh); if(x.d1 == 7) c.volume = x.d2; else if(x.d1 == 11) c.expression = x.d2; else if(x.d1 == 10) c.panning = x.d2; }
+                        else if(x.kind == 0xC) stateOf(midCh).patch = x.d1;
+                        else if(x.kind == 0xE) stateOf(midCh).bend = ((int)x.d1 + (int)x.d2 * 128) - 8192;
+                    }
+                    if(!devIndex.empty()) run.count("multi_device_song");
+                    for(std::map<size_t, ChState>::iterator it = st.begin(); it != st.end() && !run.failed(); ++it)
+                    {
+                        if(it->first >= pl->m_midiChannels.size()) { run.fail("device-channel-missing", "devices", "events were sent to MIDI channel " + std::to_string(it->first) + " (device " + std::to_string(it->first / 16) + ") but the player has only " + std::to_string(pl->m_midiChannels.size()) + " channels"); break; }
+                        const OPNMIDIplay::MIDIchannel &mc = pl->m_midiChannels[it->first]; const ChState &c = it->second;
+                        if(mc.volume != c.volume || mc.expression != c.expression || mc.panning != c.panning || mc.patch != c.patch || mc.bend != c.bend)
+                            run.fail("event-reached-wrong-channel", devIndex.empty() ? "single-device" : "multi-device", "at the end of the song MIDI channel " + std::to_string(it->first % 16) + " of device " + std::to_string(it->first / 16) + " has volume/expression/pan/program/bend " +
+                                     std::to_string(mc.volume) + "/" + std::to_string(mc.expression) + "/" + std::to_string(mc.panning) + "/" + std::to_string(mc.patch) + "/" + std::to_string(mc.bend) + ", the delivered events of its tracks give " +
+                                     std::to_string(c.volume) + "/" + std::to_string(c.expression) + "/" + std::to_string(c.panning) + "/" + std::to_string(c.patch) + "/" + std::to_string(c.bend));
                     }
                 }
             }
